@@ -301,7 +301,7 @@ func instDesc(s InstSpec) string {
 	return fmt.Sprintf("%s %s %s page=%d records=%d", k, s.W.Fixture, fx.CodecNames[s.W.Codec], s.W.PageSize, len(s.W.Records))
 }
 
-var c13Fixtures = []string{"tiny", "flat24", "nest", "twin1", "twin2"}
+var c13Fixtures = []string{"tiny", "flat24", "nest", "twin1", "twin2", "twin3"}
 
 func genSchedCase(t *rapid.T, engine string) *SchedCase {
 	cfg := wlCfg{fixtures: fixturesFromEnv(c13Fixtures), maxRecs: 8, gen: vt.DefaultGen, noPatterns: true}
